@@ -77,7 +77,10 @@ Start(e) ==
          THEN Reject("bookmark-outcome", [accept |-> mustAccept, p |-> e.p, wp |-> wp, cap |-> c], e.res)
          ELSE IF e.res # "ok" /\ e.res # "invalidBookmark"
          THEN Reject("bookmark-error-class", "invalidBookmark", e.res)
-         ELSE /\ wst' = IF e.res = "ok" THEN Put(wst, e.w, Remote(e, Watcher(kd, e.id, FALSE, e.p + 1, <<>>))) ELSE wst
+         ELSE /\ wst' = IF e.res = "ok"
+                        THEN Put(wst, e.w, Remote(e, Watcher(kd, e.id, FALSE, e.p + 1,
+                                                             IF e.bb THEN <<Ev("noop", 0, 0, FALSE, 0, FALSE, e.p)>> ELSE <<>>)))
+                        ELSE wst
               /\ UNCHANGED <<log, cur, tid, bad>>
     [] OTHER ->
          IF e.res # "ok" THEN Reject("start-failed", "ok", e.res)
@@ -97,7 +100,8 @@ Start(e) ==
                   ts == IF e.mode # "tail" THEN wp
                         ELSE IF kd = "all" THEN Max(wp - Min(e.n, c - Gap), 0)
                         ELSE IF Len(pre) >= e.n /\ Len(pre) > 0 THEN pre[1].bm ELSE Retained(wp, c)
-                  w0 == Watcher(kd, e.id, e.filt, wp, pre)
+                  (* BootstrapBookmark with a tail: the initial Noop carries the bookmark right before the first tail position *)
+                  w0 == Watcher(kd, e.id, e.filt, wp, IF e.mode = "tail" /\ e.bb THEN <<Ev("noop", 0, 0, FALSE, 0, FALSE, ts - 1)>> \o pre ELSE pre)
               IN /\ wst' = Put(wst, e.w, Remote(e, [w0 EXCEPT !.dpos = ts, !.maxlag = wp - ts]))
                  /\ UNCHANGED <<log, cur, tid, bad>>
 
